@@ -71,6 +71,8 @@ type HarnessResult struct {
 	Items       int
 	MaxDec      int
 	Samples     []string
+	XChecked    int
+	XDisagree   []string
 }
 
 func NewHarnessResult(name string) *HarnessResult {
@@ -88,9 +90,10 @@ func (hr *HarnessResult) obl(id string) *OblStat {
 }
 
 type Explorer struct {
-	in     *Interp
-	solver *Solver
-	hr     *HarnessResult
+	in      *Interp
+	solver  *Solver
+	xsolver *Solver // second solver for cross-checking assertion verdicts (thorough tier)
+	hr      *HarnessResult
 
 	// current path
 	prefix    []int
@@ -243,6 +246,16 @@ func (ex *Explorer) Assert(id string, c *Term) {
 	hr.obl(id).Reached++
 	hr.mu.Unlock()
 	r, model, note := ex.check(tt.Not(c), true)
+	if ex.xsolver != nil && r != Unknown {
+		as := append(append([]*Term{}, ex.pc...), tt.Not(c))
+		r2, _, _ := ex.xsolver.Check(as, false)
+		hr.mu.Lock()
+		hr.XChecked++
+		if r2 != Unknown && r2 != r {
+			hr.XDisagree = append(hr.XDisagree, fmt.Sprintf("%s: %s says %s, cross-check solver says %s", id, ex.solver.cmdline[0], r, r2))
+		}
+		hr.mu.Unlock()
+	}
 	switch r {
 	case Unsat:
 		hr.mu.Lock()
@@ -567,6 +580,7 @@ func (p *Pool) done() {
 }
 
 type RunConfig struct {
+	XCheckBin    string
 	Workers      int
 	SolverBin    string
 	TimeoutMs    int
@@ -617,6 +631,9 @@ func Explore(prog *ssa.Program, harnesses []*ssa.Function, rc RunConfig) []*Harn
 			defer func() {
 				for _, ex := range interps {
 					ex.solver.Close()
+					if ex.xsolver != nil {
+						ex.xsolver.Close()
+					}
 				}
 			}()
 			for {
@@ -637,6 +654,11 @@ func Explore(prog *ssa.Program, harnesses []*ssa.Function, rc RunConfig) []*Harn
 							panic(err)
 						}
 						ex.solver = s
+						if rc.XCheckBin != "" {
+							if xs, err := NewSolver(ex.in.tt, rc.XCheckBin, rc.TimeoutMs); err == nil {
+								ex.xsolver = xs
+							}
+						}
 						ex.in.ensureInit(it.h.Pkg)
 						interps[cfg] = ex
 					}
